@@ -609,3 +609,85 @@ def _ann(t):
          "address": "abi.Address", "uint16[]": "abi.DynamicArray[abi.Uint16]", "(uint8,string)": "abi.Tuple2[abi.Uint8, abi.String]",
          "bool[3]": "abi.StaticArray[abi.Bool, __import__('typing').Literal[3]]"}
     return m[t]
+
+
+# ---- C06: every accepted argument form of set() on the byte-string-like classes ------------------------------------------------------
+SETFORM_TARGETS = ("address", "string", "dynbytes", "staticbytes4")
+SETFORM_FORMS = ("str", "bytes", "bytearray", "expr", "byte-values", "same-class", "sibling-class", "computed")
+
+
+def setform_jobs(tier):
+    return [(t, f, v, in_sub) for t in SETFORM_TARGETS for f in SETFORM_FORMS for v in ((6, 8) if tier == "quick" else (5, 6, 8, 10)) for in_sub in (False, True)]
+
+
+def setform_case(job):
+    """target.set(<form>) for every form the class documents: whatever is accepted must encode to the reference bytes of the value meant."""
+    target, form, version, in_sub = job
+    from vf.core import use_repo
+    use_repo()
+    import pyteal as pt
+    from pyteal import abi
+    from algosdk import encoding
+    from typing import Literal
+    out = {"job": list(job), "problems": [], "ran": 0, "accepted": False}
+    raw = {"address": bytes(range(32)), "string": "héllo!".encode(), "dynbytes": b"\x00\x01\xfe\xff", "staticbytes4": b"\x09\x08\x07\x06"}[target]
+    want = raw if target in ("address", "staticbytes4") else len(raw).to_bytes(2, "big") + raw
+
+    def mk():
+        return {"address": abi.Address, "string": abi.String, "dynbytes": abi.DynamicBytes, "staticbytes4": lambda: abi.make(abi.StaticBytes[Literal[4]])}[target]()
+
+    def body():
+        x = mk()
+        pre = []
+        if form == "str":
+            v = encoding.encode_address(raw) if target == "address" else raw.decode("utf-8", "surrogateescape")
+            if target in ("dynbytes", "staticbytes4"):
+                v = raw.decode("latin-1")
+        elif form == "bytes":
+            v = raw
+        elif form == "bytearray":
+            v = bytearray(raw)
+        elif form == "expr":
+            v = pt.Bytes(raw)
+        elif form == "byte-values":
+            v = []
+            for bt in raw:
+                c = abi.Byte()
+                pre.append(c.set(bt))
+                v.append(c)
+        elif form == "same-class":
+            v = mk()
+            pre.append(v.set(raw))
+        elif form == "sibling-class":
+            # the other class with the same encoding
+            sib = {"address": lambda: abi.make(abi.StaticArray[abi.Byte, Literal[32]]), "string": abi.DynamicBytes, "dynbytes": lambda: abi.make(abi.DynamicArray[abi.Byte]),
+                   "staticbytes4": lambda: abi.make(abi.StaticArray[abi.Byte, Literal[4]])}[target]()
+            cells = []
+            for bt in raw:
+                c = abi.Byte()
+                pre.append(c.set(bt))
+                cells.append(c)
+            pre.append(sib.set(raw) if target == "string" else sib.set(cells))
+            v = sib
+        else:
+            ann = {"address": abi.Address, "string": abi.String, "dynbytes": abi.DynamicBytes, "staticbytes4": abi.StaticBytes[Literal[4]]}[target]
+            ns = {"pt": pt, "abi": abi, "ANN": ann, "RAW": raw}
+            exec(compile("@pt.ABIReturnSubroutine\ndef give(*, output: ANN):\n    return output.set(RAW)\n", "<setform>", "exec", dont_inherit=True), ns)
+            v = ns["give"]()
+        return pt.Seq(*pre, x.set(v), pt.Log(x.encode()))
+    try:
+        teal = pt.compileTeal(wrap(pt, body, in_sub), pt.Mode.Application, version=version)
+    except (pt.TealInputError, pt.TealTypeError, pt.TealCompileError) as e:
+        out["rejected"] = f"{type(e).__name__}: {str(e)[:100]}"
+        return out
+    except Exception as e:
+        # a form the class does not document (e.g. Address.set(bytearray)) is refused by a plain Python error: no value was accepted
+        out["rejected"] = f"{type(e).__name__}: {str(e)[:100]}"
+        return out
+    out["accepted"] = True
+    res = run_teal(teal)
+    out["ran"] = 1
+    if res.verdict != "approve" or res.logs != [want]:
+        out["problems"].append(f"{target}.set(<{form}>) at v{version}: encodes to {[l.hex() for l in res.logs]} ({res.verdict} {res.detail}), the reference encoding of the value is {want.hex()}")
+        out["teal"] = teal[:3000]
+    return out
